@@ -158,10 +158,19 @@ class _Res:
         self.success, self.x, self.fun, self.message = success, x, fun, message
 
 
+# the local methods of scipy.optimize.minimize that IGNORE `bounds=` (RuntimeWarning "Method ... cannot handle
+# constraints or bounds"); validated against the installed SciPy by harness/c20.py::scipy_method_table_check
+SCIPY_IGNORES_BOUNDS = frozenset({"CG", "BFGS", "Newton-CG", "dogleg", "trust-ncg", "trust-exact", "trust-krylov"})
+
+
 def positional_probe(fun, x0, bounds=None, method=None, tol=None):  # noqa: ANN001, ARG001
     """Stand-in for scipy.optimize.minimize (same calling convention as used by LocalScipyMinimizer).
     Like a box-constrained optimiser it projects every candidate (the start first) into the box `bounds`
-    (one (lo, hi) per POSITION of x0) before evaluating it; min / max are exact in binary64."""
+    (one (lo, hi) per POSITION of x0) before evaluating it; min / max are exact in binary64.
+    For a `method` that ignores bounds in SciPy (CG, BFGS, ...) the box is ignored here too: nothing is projected
+    (mirrored by coq/fit/FitScipyExec.v `vprobe_m`)."""
+    if method in SCIPY_IGNORES_BOUNDS:
+        bounds = None
     x0 = [float(v) for v in x0]
     cands = [list(x0)]
     for i in range(len(x0)):
